@@ -42,6 +42,28 @@ fn note_kinds(t: &mut Tctx, shape: &Shape) {
     }
 }
 
+
+/// Trees far wider and names far longer than any generator draws: 20 000 .. 30 000 children under one node (what
+/// `[T; 30000]` or a generated register map looks like), names of 1 KiB .. 70 KiB, ASCII and multi-byte.
+fn extreme_trees() -> Vec<(&'static str, Shape)> {
+    use pcv_core::model::intern;
+    let long = |n: usize, unit: &str| -> Name { intern(&unit.repeat(n / unit.len() + 1)) };
+    let mut out: Vec<(&'static str, Shape)> = Vec::new();
+    out.push(("tuple of 30000 u8", Shape::Tuple(vec![Shape::U8; 30_000])));
+    out.push(("tuple of 27000 mixed leaves", Shape::Tuple((0..27_000).map(|i| [Shape::U8, Shape::Str, Shape::Bool, Shape::I64][i % 4].clone()).collect())));
+    out.push(("tuple struct of 30000", Shape::TupleStruct("Wide", vec![Shape::U16; 30_000])));
+    out.push(("struct of 20000 fields", Shape::Struct("Regs", (0..20_000).map(|i| (intern(&format!("r{}", i)), if i % 2 == 0 { Shape::U32 } else { Shape::Bool })).collect())));
+    out.push(("enum of 20000 unit variants", Shape::Enum("Op", (0..20_000).map(|i| VariantShape { name: intern(&format!("V{}", i)), data: VData::Unit }).collect())));
+    out.push(("enum with a 19000-field variant", Shape::Enum("E", vec![VariantShape { name: "Small", data: VData::Unit }, VariantShape { name: "Big", data: VData::Struct((0..19_000).map(|i| (intern(&format!("f{}", i)), Shape::U8)).collect()) }, VariantShape { name: "T", data: VData::Tuple(vec![Shape::U8; 27_000]) }])));
+    for n in [1024usize, 1025, 1100, 5000, 70_000] {
+        out.push(("long type name", Shape::Struct(long(n, "N"), vec![("a", Shape::U8)])));
+        out.push(("long field name", Shape::Struct("S", vec![("a", Shape::U8), (long(n, "f"), Shape::U16), ("z", Shape::Bool)])));
+        out.push(("long variant name", Shape::Enum("E", vec![VariantShape { name: "A", data: VData::Unit }, VariantShape { name: long(n, "k\u{e4}se"), data: VData::Newtype(Box::new(Shape::U8)) }])));
+        out.push(("long unit struct name", Shape::UnitStruct(long(n, "\u{540d}"))));
+    }
+    out
+}
+
 // ------------------------------------------------------------------ C15
 
 fn c15_tree(t: &mut Tctx, shape: &Shape, origin: &str) {
@@ -135,6 +157,16 @@ pub fn run_c15(cfg: &Cfg) -> Report {
                 }
             }
         }
+        // very wide nodes and very long names
+        if t.cfg.tier != Tier::Tiny {
+            for (what, shape) in extreme_trees() {
+                di += 1;
+                if t.mine(di) {
+                    t.st.count("extreme_trees");
+                    c15_tree(t, &shape, what);
+                }
+            }
+        }
         // schemas of the concrete corpus
         if t.tid == 0 {
             macro_rules! one {
@@ -168,6 +200,7 @@ pub fn run_c15(cfg: &Cfg) -> Report {
     }
     rep.floor("decoded_back", 100);
     rep.floor("deep_trees", 7);
+    rep.floor("extreme_trees", 10);
     rep
 }
 
@@ -768,6 +801,27 @@ pub fn run_c19(cfg: &Cfg) -> Report {
                     let (shape, _) = deep_case(kind, depth);
                     t.st.count("deep_trees");
                     c19_tree(t, &shape_to_owned(&shape), "deep tree");
+                }
+            }
+        }
+        if t.cfg.tier != Tier::Tiny {
+            for (what, shape) in extreme_trees() {
+                di += 1;
+                if t.mine(di) && shape.nodes() < 1000 {
+                    // wide nodes are left to C15: the name-mention monitor is quadratic in the number of names
+                    t.st.count("extreme_trees");
+                    c19_tree(t, &shape_to_owned(&shape), what);
+                }
+            }
+            di += 1;
+            if t.mine(di) {
+                // a rendering of more than 16 MiB: a 17 MiB field name, then two short ones
+                let huge = pcv_core::model::intern(&"x".repeat(17 << 20));
+                let s1 = Shape::Struct("Big", vec![(huge, Shape::U8), ("second_field", Shape::U16), ("third_field", Shape::Bool)]);
+                let s2 = Shape::Enum("BigE", vec![VariantShape { name: huge, data: VData::Unit }, VariantShape { name: "SecondVariant", data: VData::Newtype(Box::new(Shape::U8)) }, VariantShape { name: "ThirdVariant", data: VData::Struct(vec![("inner_a", Shape::U8)]) }]);
+                for s in [s1, s2] {
+                    t.st.count("extreme_trees");
+                    c19_tree(t, &shape_to_owned(&s), "rendering beyond 16 MiB");
                 }
             }
         }
